@@ -6,8 +6,18 @@ CONSTANTS
   CalShifts <- MCCalShifts
   ModUnits <- MCModUnits
   WeekStarts <- SimWeekStarts
+  Overrides <- MCOverrides
+  Weekdays <- SimWeekdays
 SPECIFICATION Spec
 CONSTRAINT Depth
 INVARIANT Emit
 INVARIANT AllWellFormed
+INVARIANT PathIndependent
+INVARIANT AddSubInverse
+INVARIANT ModifiersOk
+INVARIANT HistoryIndependent
+INVARIANT NavOk
+PROPERTY ConvPreserves
+PROPERTY CopyStutters
+PROPERTY SetKeeps
 CHECK_DEADLOCK FALSE
